@@ -235,6 +235,19 @@ def check_code_text_split(prog, rep):
             if bits:
                 syms = set(b[1] for b in bits if isinstance(b, tuple))
                 pats.append((tuple((b[2] if isinstance(b, tuple) else b) for b in bits), len(syms)))
+        # every path prints through that one formatted write: no other text reaches the formatter
+        other = []
+        for bb_ in d["blocks"]:
+            t_ = bb_["term"]
+            if t_["k"] == "call" and not bb_.get("cleanup"):
+                pth = (t_.get("resolved") or t_.get("callee") or {}).get("path", "")
+                if pth.startswith("core::fmt::Formatter") and not pth.endswith("::write_fmt") or pth.startswith("core::fmt::Write::"):
+                    other.append(pth)
+        nfmt = sum(1 for bb_ in d["blocks"] if bb_["term"]["k"] == "call" and not bb_.get("cleanup")
+                   and (bb_["term"].get("resolved") or bb_["term"].get("callee") or {}).get("path", "").endswith("Formatter::<'a>::write_fmt"))
+        rep.ob("C05.7", "display-only-c.dd", not other and nfmt == 1,
+               "Display for MessageClass writes text other than the one formatted 'class.detail' (calls: %s, formatted writes: %d): some code "
+               "byte does not print as c.dd" % (other, nfmt), {"file": d["span"]["f"], "line": d["span"]["l"], "fn": d["path"]})
         want = {((5, 6, 7, 0, 0, 0, 0, 0), 1), ((0, 1, 2, 3, 4, 0, 0, 0), 1)}
         rep.ob("C05.7", "display-split", set(pats) == want,
                "Display for MessageClass does not print class = code bits 7:5 and detail = code bits 4:0 (found bit patterns %s)" % pats,
